@@ -28,7 +28,7 @@ func main() {
 		run.Finish()
 	}
 	signingFees(run)
-	sim.Parallel(run.N(60, 3000), 16, func(i int) { dataRequestFees(run, i) })
+	sim.Parallel(run.N(120, 3000), 16, func(i int) { dataRequestFees(run, i) })
 	for _, c := range []string{"req-paid", "member-payouts", "req-rejected-over-limit", "ledger-blocks-checked", "oracle-req-paid", "oracle-req-free",
 		"oracle-req-rejected-over-limit", "oracle-req-rejected-insufficient-balance", "oracle-ledger-blocks-checked"} {
 		run.Require(c, 1)
